@@ -1128,7 +1128,8 @@ def _refresh_survivors(ctx, repo, af):
                     names_in(val) & deps)
                 if tainted:
                     for x in ast.walk(tgt):
-                        if isinstance(x, ast.Name):
+                        if isinstance(x, ast.Name) and isinstance(
+                                x.ctx, ast.Store):
                             deps.add(x.id)
     back = [n for n in walk(af) if isinstance(n, ast.Assign)
             and isinstance(n.targets[0], ast.Subscript)
@@ -1636,6 +1637,24 @@ MUTANTS = [
       "                        hw.store_feature(feat=feat, data=fdata)\n"
       '                        hw.h5file["events"][feat].attrs["mean"] = \\\n'
       "                            np.nanmean(fdata)\n"), "R20.3"),
+    ("replace mode truncates resizable scalar datasets", WR,
+     ("            else:\n                del events[feat]\n",
+      "            elif (dfn.scalar_feature_exists(feat)\n"
+      "                    and events[feat].maxshape[0] is None):\n"
+      "                events[feat].resize(0, axis=0)\n"
+      "            else:\n                del events[feat]\n"), "R20.3"),
+    ("ChildScalar.reset() drops the data but keeps the summaries", HE,
+     ("    @property\n    def shape(self):\n        return len(self),\n",
+      "    def reset(self):\n        self._array = None\n\n"
+      "    @property\n    def shape(self):\n        return len(self),\n"),
+     "R20.3"),
+    ("hierarchy refresh puts the old scalar objects back", HB,
+     ("        self._events.clear()\n",
+      "        reuse = {ft: fd for ft, fd in self._events.items()\n"
+      "                 if isinstance(fd, ChildScalar)}\n"
+      "        self._events.clear()\n"
+      "        for ft, fd in reuse.items():\n"
+      "            self._events[ft] = fd\n"), "R20.3"),
     ("replace mode truncates instead of deleting", WR,
      ("                del events[feat]\n",
       "                events[feat].resize(0, axis=0)\n"), "R20.3"),
@@ -1700,6 +1719,21 @@ TWINS = [
       "        computed = ufunc(self.__array__())\n"
       "        self._ufunc_attrs[uname] = computed\n"
       "        return computed\n")),
+    # round 2
+    ("replace mode truncates and clears the attributes", WR,
+     ("            else:\n                del events[feat]\n",
+      "            elif (dfn.scalar_feature_exists(feat)\n"
+      "                    and events[feat].maxshape[0] is None):\n"
+      "                events[feat].resize(0, axis=0)\n"
+      "                events[feat].attrs.clear()\n"
+      "            else:\n                del events[feat]\n")),
+    ("ChildScalar.reset() empties both memos", HE,
+     ("    @property\n    def shape(self):\n        return len(self),\n",
+      "    def reset(self):\n        self._array = None\n"
+      "        self._ufunc_attrs.clear()\n\n"
+      "    @property\n    def shape(self):\n        return len(self),\n")),
+    ("refresh re-creates the feature cache dictionary", HB,
+     ("        self._events.clear()\n", "        self._events = {}\n")),
 ]
 
 # mutants that re-introduce the repaired defects (apply to the fixed tree)
